@@ -1,9 +1,9 @@
 #!/bin/bash
-# confirm_mutant.sh <seeded-dir> <crate> <demo-file> <rustflags> <features>
+# confirm_mutant.sh <seeded-dir> <crate> <demo-file> <rustflags> <features> [+toolchain]
 # Confirms in a scratch worktree under /tmp: (1) the patch applies, compiles and the 138 baseline tests pass with it;
 # (2) the demonstration fails with the patch; (3) the demonstration passes without it.  Writes <seeded-dir>/confirm.log.
 set -u
-SD=$(readlink -f "$1"); CRATE=$2; DEMO=$3; RF=${4:-}; FEAT=${5:-}
+SD=$(readlink -f "$1"); CRATE=$2; DEMO=$3; RF=${4:-}; FEAT=${5:-}; TC=${6:-}
 NAME=$(basename "$SD")
 WT=/tmp/confirm/$NAME
 LOG=$SD/confirm.log
@@ -20,10 +20,10 @@ TESTNAME=$(basename "$DEMO" .rs)
 cp "$SD/demo/$DEMO" "$CRATE/tests/"
 FARG=""; [ -n "$FEAT" ] && FARG="--features $FEAT"
 echo "-- demo WITH patch (expect failure) RUSTFLAGS=[$RF] $FARG"
-RUSTFLAGS="$RF" CARGO_TARGET_DIR=$WT/target/demo cargo test --offline -p "$CRATE" $FARG --test "$TESTNAME" 2>&1 | grep -E "^test result|panicked|error(\[|:)" | head -8
+RUSTFLAGS="$RF" CARGO_TARGET_DIR=$WT/target/demo cargo $TC test --offline -p "$CRATE" $FARG --test "$TESTNAME" 2>&1 | grep -E "^test result|panicked|error(\[|:)" | head -8
 git apply -R "$SD/patch.diff"
 echo "-- demo WITHOUT patch (expect pass)"
-RUSTFLAGS="$RF" CARGO_TARGET_DIR=$WT/target/demo cargo test --offline -p "$CRATE" $FARG --test "$TESTNAME" 2>&1 | grep -E "^test result|panicked|error(\[|:)" | head -8
+RUSTFLAGS="$RF" CARGO_TARGET_DIR=$WT/target/demo cargo $TC test --offline -p "$CRATE" $FARG --test "$TESTNAME" 2>&1 | grep -E "^test result|panicked|error(\[|:)" | head -8
 } > "$LOG" 2>&1
 cd /; git -C /repo worktree remove --force "$WT"; git -C /repo worktree prune
 tail -12 "$LOG"
